@@ -1475,7 +1475,7 @@ def correspond(ctx):
             for _ in range(14 if ctx.quick else 60):
                 add('strained-cage-renumbered', renumbered_ints(rng, ints))
     seen_cages = set()
-    for i in range(200 if ctx.quick else 8000):
+    for i in range(200 if ctx.quick else 2500):
         n, edges = strained_cage(rng)
         key = tuple(sorted(tuple(sorted(e)) for e in edges))
         if key in seen_cages:
